@@ -1016,12 +1016,15 @@ type xferStats struct {
 
 func simRandomOpts(rng *rand.Rand, seed int64) simOpts {
 	o := simOpts{seed: seed, interleaveA: -1, interleaveB: -1, setTSN: true}
-	switch rng.Intn(3) {
+	switch rng.Intn(4) {
 	case 0:
 		o.tsnA, o.tsnB = rng.Uint32(), rng.Uint32()
-	default: // close to the 2^32 wrap
+	case 1: // within a few thousand TSNs of the 2^32 wrap
 		o.tsnA = uint32(0) - uint32(rng.Intn(3000)) - 1
 		o.tsnB = uint32(0) - uint32(rng.Intn(3000)) - 1
+	default: // the wrap happens within the first few dozen chunks, i.e. inside the faulty phase of the run
+		o.tsnA = uint32(0) - uint32(rng.Intn(60)) - 1
+		o.tsnB = uint32(0) - uint32(rng.Intn(60)) - 1
 	}
 	mtus := []uint32{0, 1191, 1200, 576, 300, 1500, 8192} // > receiveMTU (8192) cannot be read by a pion peer
 	o.mtu = mtus[rng.Intn(len(mtus))]
